@@ -8,7 +8,7 @@ from . import coretypes as ct
 from . import array_folds as af
 from . import core_folds as cf
 
-EXPLANATION = '(R1) in-place dunders: same operation/strictness as the out-of-place sibling, out=self; Vector forwards them per component; (R2) out=: numpy receives the buffer of the out Array, the unit is stored on it and the same object returned; (R3) operands unchanged by every binary operator (Array and Vector); (R4) copy()/copy.copy/deepcopy of Array and Vector on fresh buffers (copy protocol resolved through the MRO), deepcopy of containers independent, container copy() shallow with its own metadata dict; (R6) Array.__init__ keeps the buffer it is given, __getitem__ wraps the numpy index result, Vector maps per component. (R7) end to end: x op= y for Arrays of rank 0, 1, 2 and empty ones keeps object and buffer; Vector op= with Vector / Array / array-valued / scalar Quantity operands applied twice leaves the operand denoting the same quantity; (R4) a deep copy shares nothing mutable with the original (reachability over the whole object graph). (R8) conversion history; the operator table is folded over plain operand kinds (a private rewrite of the operand such as 1.0/other is reported); deepcopy honours the memo handed to __deepcopy__. R7 also folds Array op= Vector (the name is bound to the Vector a op v) and Vectors built from raw buffers of different dtypes (no component buffer is replaced by a cast); weak references are atomic under deepcopy.'
+EXPLANATION = '(R1) in-place dunders: same operation/strictness as the out-of-place sibling, out=self; Vector forwards them per component; (R2) out=: numpy receives the buffer of the out Array, the unit is stored on it and the same object returned; (R3) operands unchanged by every binary operator (Array and Vector); (R4) copy()/copy.copy/deepcopy of Array and Vector on fresh buffers (copy protocol resolved through the MRO), deepcopy of containers independent, container copy() shallow with its own metadata dict; (R6) Array.__init__ keeps the buffer it is given, __getitem__ wraps the numpy index result, Vector maps per component. (R7) end to end: x op= y for Arrays of rank 0, 1, 2 and empty ones keeps object and buffer; Vector op= with Vector / Array / array-valued / scalar Quantity operands applied twice leaves the operand denoting the same quantity; (R4) a deep copy shares nothing mutable with the original (reachability over the whole object graph). (R8) conversion history; the operator table is folded over plain operand kinds (a private rewrite of the operand such as 1.0/other is reported); deepcopy honours the memo handed to __deepcopy__. R7 also folds Array op= Vector (the name is bound to the Vector a op v) and Vectors built from raw buffers of different dtypes (no component buffer is replaced by a cast); weak references are atomic under deepcopy. (R8) a Vector is its current components (shared with C06.R4/C09.R2); R4 fills the metadata in place (a class-level dict would be shared with the deep copy); R7 includes float32 data.'
 NOT_DECIDED = "numpy's own view/copy rules for fancy indexing; buffers shared through numpy operations outside osyris"
 TRUSTED = ('CPython ast', 'numpy out= semantics', 'the interpreter sa/models.py (ModelEval) and its library models')
 
